@@ -5,7 +5,9 @@ import RTV.Model.UnitExtract
 `:`-separated sub-fields, `_` = empty list; strings are code points.
   ux.extract <stage pre|full> <src> <connector> <maxPrefixLen> <isCurrency> <isDimension>
              <pm start:len:text;..> <sm ..> <nums1 start:len:text;..> <nums2 ..> <cuts n|k,..> <nonUnit start:len;..>
-             <hasSeparate> <sep start:text;..> <ambTerm> <mask1 0101..> <mask2> <half> <lockstep 0|1>
+             <hasSeparate> <sep start:text;..> <ambTerm> <filt1> <filt2> <half 0101..> <lockstep 0|1>
+             filt = `<scu hit texts t,t,..|_>|<key hit texts t,t,..|_>~<value matches start:len;..|_>|…` (one `~` group per
+             dictionary entry, in order)
         -> `<results start:len:rel|n:text;..>#<unit_is_prefix flags as passed to _select_candidates>#<source after the comma rewrite>`  or err:IndexError
   ux.select <srcLen> <ers start:len:rel|n:text;..> <flags>      -> results or err:IndexError
   ux.maxsuffix <src> <connector> <firstIndex> <sm>              -> max_len
@@ -48,6 +50,20 @@ def parseCuts (f : String) : List (Option Nat) :=
 def parseMask (f : String) : List Bool :=
   if f == "_" then [] else f.toList.map (· == '1')
 
+def parseTexts (f : String) : List (List Nat) :=
+  if f == "_" || f == "" then [] else (f.splitOn ",").map parseCps
+
+def parseFilterSpec (f : String) : FilterSpec :=
+  match f.splitOn "|" with
+  | scu :: fs =>
+    let scuHits := parseTexts scu
+    { scu := fun t => scuHits.contains t,
+      filters := fs.filterMap fun g =>
+        match g.splitOn "~" with
+        | [k, v] => let hits := parseTexts k; some { keyHit := fun t => hits.contains t, valMatches := parsePairs v }
+        | _ => none }
+  | [] => { scu := fun _ => false, filters := [] }
+
 def showMask (l : List Bool) : String := if l.isEmpty then "_" else String.ofList (l.map fun b => if b then '1' else '0')
 
 def showERs (l : List ER) : String :=
@@ -67,7 +83,7 @@ def hUxExtract : Handler
   | [stage, src, conn, mpl, isCur, isDim, pm, sm, n1, n2, cuts, nonUnit, hasSep, sep, amb, m1, m2, half, lockstep] =>
     let c : Cfg := ⟨pySpace, parseCps conn, parseNat mpl, parseBool isCur, parseBool isDim⟩
     let i : Inputs := ⟨parseCps src, parseMRs pm, parseMRs sm, parseNums n1, parseNums n2, parseCuts cuts,
-      parsePairs nonUnit, parseBool hasSep, parseSeps sep, parseCps amb, parseMask m1, parseMask m2, parseMask half,
+      parsePairs nonUnit, parseBool hasSep, parseSeps sep, parseCps amb, parseFilterSpec m1, parseFilterSpec m2, parseMask half,
       parseBool lockstep⟩
     let r := if stage == "full" then extract c i else extractPre c i
     match r with
